@@ -17,6 +17,16 @@ CLAIMED = {
         design="§3 C02"),
 }
 
+CLAIMED["C08"] = dict(
+    text="Bounded symbolic execution of the real _CachedStorage cache code and GrpcClientCache/GrpcStorageProxy + servicer GetTrials over one "
+         "shared backend: k symbolic steps (client, op, trial, state; objective values z3 reals) by two caching clients; after every read and at "
+         "the end every cached view (all filters, single trial, number lookup, name, directions) is compared with the backend at that moment and "
+         "the watermark invariant is asserted. k<=3 quick, k<=4 thorough.",
+    note="trusted: z3; backend is a fake RDB (InMemoryStorage + RDBStorage._get_trials' filter transcribed, checked against the real RDBStorage "
+         "on SQLite in every run); gRPC transport replaced by a direct call with the real protobuf messages; thread interleavings inside one client "
+         "and SQL are outside",
+    design="§3 C08")
+
 NOT_APPLICABLE = {
     "C03": "thread/process pre-emption at source-line granularity inside the storage layer cannot be made a symbolic variable over the "
            "real Python code by a solver-based executor; its atomic-step obligations are discharged under C01/C04/C06/C07",
